@@ -24,8 +24,10 @@ pub mod c29;
 pub mod c30;
 pub mod c31;
 pub mod c32;
+pub mod c33;
 pub mod c34;
 pub mod c35;
+pub mod c36;
 pub mod c37;
 pub mod c38;
 pub mod c39;
@@ -96,8 +98,10 @@ pub fn run(prop: &str, args: &Args) -> i32 {
         "C30" => c30::run(args),
         "C31" => c31::run(args),
         "C32" => c32::run(args),
+        "C33" => c33::run(args),
         "C34" => c34::run_c34(args),
         "C35" => c34::run_c35(args),
+        "C36" => c36::run(args),
         "C37" => c37::run(args),
         "C38" => c38::run(args),
         "C39" => c39::run(args),
